@@ -22,6 +22,7 @@ class World(object):
         self.seed = seed
         self.n = 0
         self.content = {}
+        self.used = set()
 
     def tok1(self, i):
         return S("tok1", i, "-", len(self.primary[i]))
@@ -39,6 +40,13 @@ class World(object):
             if cls == "raw" and near == "lowerhex":
                 s = [r.choice("0123456789abcdefABCDEF") for _ in range(length)]
                 s[r.randrange(length)] = r.choice("abcdef")
+                s = "".join(s)
+            elif cls == "raw" and near == "adjacent":
+                # packable characters plus ONE character right next to a packable range in the character table (':' after '9', '/' before
+                # '0', ',' before '-', 'G' after 'F', '@' before 'A' is excluded: it makes a JID)
+                base = r.choice(["0123456789-.", "0123456789ABCDEF"])
+                s = [r.choice(base) for _ in range(length)]
+                s[r.randrange(length)] = r.choice(":/,G`;")
                 s = "".join(s)
             elif cls == "raw" and near == "mixed" and length >= 2:
                 s = [r.choice("0123456789ABCDEF-.") for _ in range(length)]
@@ -64,11 +72,13 @@ class World(object):
                 s = "".join(s)
             else:
                 raise ValueError(cls)
-            if s not in self.words and "@" not in s[1:]:
+            # (also: never the same string twice - two equal attribute keys in one node would silently collapse into one)
+            if s not in self.words and "@" not in s[1:] and (length < 3 or s not in self.used):
                 break
         else:
             raise core.MachineryError("cannot generate %s string of length %d outside the dictionary" % (cls, length))
         self.content[ref] = s
+        self.used.add(s)
         return S(cls, 0, ref, length)
 
     def blob(self, length):
@@ -234,7 +244,7 @@ def generate(world, rng, thorough):
                            kids=[T(w.fresh(cls, min(L, 30)), [], bin=w.fresh(cls, L))]))
     # 2b. strings that only just fail to be packable (lower-case hex digits; nibble characters mixed with hex letters) stay plain text
     for L in ([2, 3, 4, 6, 8, 16, 32, 40, 64, 126, 127, 128] if not thorough else list(range(2, 131))):
-        for near in ("lowerhex", "mixed"):
+        for near in ("lowerhex", "mixed", "adjacent"):
             cases.append(T(msg, [(idk, w.fresh("raw", L, near=near)), (frm, w.jid(w.fresh("raw", L, near=near), w.tok1(8)))],
                            kids=[T(w.fresh("raw", min(L, 30), near=near), [], bin=w.fresh("raw", L, near=near))]))
     # 3. raw text lengths, JIDs with raw user / raw server
@@ -268,7 +278,7 @@ def generate(world, rng, thorough):
         if c < 0.85 and pos == "v":
             return w.jid(rstr("u") if rng.random() < 0.8 else w.fresh("raw", 6), rng.choice([w.tok1(8), w.fresh("raw", 4), w.tok2(rng.randint(0, 1023))]))
         if c < 0.9:
-            return w.fresh("raw", rng.choice([2, 4, 8, 12, 32]), near=rng.choice(["lowerhex", "mixed"]))
+            return w.fresh("raw", rng.choice([2, 4, 8, 12, 32]), near=rng.choice(["lowerhex", "mixed", "adjacent"]))
         return w.fresh("raw", rng.choice([1, 3, 7, 20, 255, 256, 400]))
 
     def rtree(depth):
